@@ -18,10 +18,13 @@
 EXTENDS Naturals, Sequences, TLC, Json
 
 CONSTANTS DeferredStoreCancel,  \* TRUE for RunActionWithTimeoutAndContext (deferred store.Cancel())
-          PromptRunner
+          PromptRunner,
+          TimeoutCancelInStore  \* TRUE: as coded - the cancel functions of BOTH derived contexts are registered in the caller's store
 
 VARIABLES outcome,      \* "nil" | "error": what the action returns when it finishes on its own
-          watches,      \* the action returns (with a context error) as soon as its context is done
+          watches,      \* the action returns as soon as its context is done ...
+          quiet,        \* ... with nil instead of the context's error (it stops without complaining)
+          storeCancelled, \* somebody else called Cancel() on the caller's store while the runner was waiting (...AndCancelStore only)
           parentDone,   \* the caller's context is cancelled
           timerFired,   \* the timeout elapsed
           timeoutCancelled, actionCancelled,   \* explicit cancel calls
@@ -35,7 +38,7 @@ VARIABLES outcome,      \* "nil" | "error": what the action returns when it fini
           finishedBeforeDeadline,
           hist
 
-vars == <<outcome, watches, parentDone, timerFired, timeoutCancelled, actionCancelled, tErr, rpc, apc, aresult, resultCh, got, ret,
+vars == <<outcome, watches, quiet, storeCancelled, parentDone, timerFired, timeoutCancelled, actionCancelled, tErr, rpc, apc, aresult, resultCh, got, ret,
           finishedBeforeDeadline, hist>>
 
 TimeoutCtxDone == parentDone \/ timerFired \/ timeoutCancelled
@@ -43,7 +46,7 @@ ActionCtxDone == parentDone \/ actionCancelled
 
 
 
-Init == /\ outcome \in {"nil", "error"} /\ watches \in BOOLEAN
+Init == /\ outcome \in {"nil", "error"} /\ watches \in BOOLEAN /\ quiet \in BOOLEAN /\ (quiet => watches) /\ storeCancelled = FALSE
         /\ parentDone \in BOOLEAN     \* the context may already be done at the call
         /\ timerFired = FALSE /\ timeoutCancelled = FALSE /\ actionCancelled = FALSE
         /\ tErr = (IF parentDone THEN "cancelled" ELSE "none")
@@ -56,39 +59,48 @@ Keep(vs) == UNCHANGED vs
 ParentCancels == /\ ~parentDone /\ rpc # "ret" /\ parentDone' = TRUE /\ Log("ParentCancels")
                  /\ PromptRunner => ~((rpc = "select" /\ resultCh # <<>>) \/ rpc = "gotresult")
                  /\ tErr' = (IF tErr = "none" THEN "cancelled" ELSE tErr)
-                 /\ UNCHANGED <<outcome, watches, timerFired, timeoutCancelled, actionCancelled, rpc, apc, aresult, resultCh, got, ret, finishedBeforeDeadline>>
+                 /\ UNCHANGED <<outcome, watches, quiet, storeCancelled, timerFired, timeoutCancelled, actionCancelled, rpc, apc, aresult, resultCh, got, ret, finishedBeforeDeadline>>
 
 TimerFires == /\ ~timerFired /\ rpc \in {"select"} /\ ~TimeoutCtxDone
               /\ PromptRunner => resultCh = <<>>
               /\ timerFired' = TRUE /\ Log("TimerFires")
               /\ tErr' = (IF tErr = "none" THEN "timeout" ELSE tErr)
-                 /\ UNCHANGED <<outcome, watches, parentDone, timeoutCancelled, actionCancelled, rpc, apc, aresult, resultCh, got, ret, finishedBeforeDeadline>>
+                 /\ UNCHANGED <<outcome, watches, quiet, storeCancelled, parentDone, timeoutCancelled, actionCancelled, rpc, apc, aresult, resultCh, got, ret, finishedBeforeDeadline>>
+
+\* another goroutine cancels the caller's store while the runner waits: every function registered in it is invoked
+StoreCancels == /\ ~DeferredStoreCancel /\ ~storeCancelled /\ rpc = "select" /\ ~TimeoutCtxDone /\ ~ActionCtxDone
+                /\ (PromptRunner => resultCh = <<>>)
+                /\ storeCancelled' = TRUE /\ actionCancelled' = TRUE
+                /\ timeoutCancelled' = (timeoutCancelled \/ TimeoutCancelInStore)
+                /\ tErr' = (IF TimeoutCancelInStore /\ tErr = "none" THEN "cancelled" ELSE tErr)
+                /\ Log("StoreCancels")
+                /\ UNCHANGED <<outcome, watches, quiet, parentDone, timerFired, rpc, apc, aresult, resultCh, got, ret, finishedBeforeDeadline>>
 
 RunnerChecks == /\ rpc = "check"
                 /\ IF parentDone THEN rpc' = "ret" /\ ret' = "cancelled" /\ apc' = apc
                    ELSE rpc' = "select" /\ ret' = ret /\ apc' = "working"
                 /\ Log("RunnerChecks")
-                /\ UNCHANGED <<tErr, outcome, watches, parentDone, timerFired, timeoutCancelled, actionCancelled, aresult, resultCh, got, finishedBeforeDeadline>>
+                /\ UNCHANGED <<tErr, outcome, watches, quiet, storeCancelled, parentDone, timerFired, timeoutCancelled, actionCancelled, aresult, resultCh, got, finishedBeforeDeadline>>
 
 ActionMayMove == PromptRunner => ~(rpc = "select" /\ TimeoutCtxDone)
 
 ActionFinishes == /\ apc = "working" /\ ActionMayMove /\ apc' = "send" /\ aresult' = outcome /\ Log("ActionFinishes")
-                  /\ UNCHANGED <<tErr, outcome, watches, parentDone, timerFired, timeoutCancelled, actionCancelled, rpc, resultCh, got, ret, finishedBeforeDeadline>>
+                  /\ UNCHANGED <<tErr, outcome, watches, quiet, storeCancelled, parentDone, timerFired, timeoutCancelled, actionCancelled, rpc, resultCh, got, ret, finishedBeforeDeadline>>
 
 ActionSeesCtx == /\ apc = "working" /\ ActionMayMove /\ watches /\ ActionCtxDone
-                 /\ apc' = "send" /\ aresult' = "ctxerr" /\ Log("ActionSeesCtx")
-                 /\ UNCHANGED <<tErr, outcome, watches, parentDone, timerFired, timeoutCancelled, actionCancelled, rpc, resultCh, got, ret, finishedBeforeDeadline>>
+                 /\ apc' = "send" /\ aresult' = (IF quiet THEN "nil" ELSE "ctxerr") /\ Log("ActionSeesCtx")
+                 /\ UNCHANGED <<tErr, outcome, watches, quiet, storeCancelled, parentDone, timerFired, timeoutCancelled, actionCancelled, rpc, resultCh, got, ret, finishedBeforeDeadline>>
 
 ActionSends == /\ ActionMayMove /\ apc = "send" /\ resultCh = <<>> /\ resultCh' = <<aresult>> /\ apc' = "done"
                /\ finishedBeforeDeadline' = ~TimeoutCtxDone
                /\ Log("ActionSends")
-               /\ UNCHANGED <<tErr, outcome, watches, parentDone, timerFired, timeoutCancelled, actionCancelled, rpc, aresult, got, ret>>
+               /\ UNCHANGED <<tErr, outcome, watches, quiet, storeCancelled, parentDone, timerFired, timeoutCancelled, actionCancelled, rpc, aresult, got, ret>>
 
 RunnerGetsResult == /\ rpc = "select" /\ resultCh # <<>>
                     /\ got' = resultCh[1] /\ resultCh' = <<>> /\ rpc' = "gotresult"
                     /\ actionCancelled' = (actionCancelled \/ resultCh[1] # "nil")   \* err != nil: actionCancel(); <-Done
                     /\ Log("RunnerGetsResult")
-                    /\ UNCHANGED <<tErr, outcome, watches, parentDone, timerFired, timeoutCancelled, apc, aresult, ret, finishedBeforeDeadline>>
+                    /\ UNCHANGED <<tErr, outcome, watches, quiet, storeCancelled, parentDone, timerFired, timeoutCancelled, apc, aresult, ret, finishedBeforeDeadline>>
 
 \* after the result: err2 := error of timeoutCtx; if any return it, else timeoutCancel(); return err
 RunnerReturnsResult == /\ rpc = "gotresult"
@@ -98,22 +110,22 @@ RunnerReturnsResult == /\ rpc = "gotresult"
                        /\ rpc' = "ret"
                        /\ actionCancelled' = (actionCancelled \/ DeferredStoreCancel)
                        /\ Log("RunnerReturnsResult")
-                       /\ UNCHANGED <<outcome, watches, parentDone, timerFired, apc, aresult, resultCh, got, finishedBeforeDeadline>>
+                       /\ UNCHANGED <<outcome, watches, quiet, storeCancelled, parentDone, timerFired, apc, aresult, resultCh, got, finishedBeforeDeadline>>
 
 RunnerTimesOut == /\ rpc = "select" /\ TimeoutCtxDone
                   /\ rpc' = "drain" /\ actionCancelled' = TRUE /\ timeoutCancelled' = TRUE /\ tErr' = tErr
                   /\ Log("RunnerTimesOut")
-                  /\ UNCHANGED <<outcome, watches, parentDone, timerFired, apc, aresult, resultCh, got, ret, finishedBeforeDeadline>>
+                  /\ UNCHANGED <<outcome, watches, quiet, storeCancelled, parentDone, timerFired, apc, aresult, resultCh, got, ret, finishedBeforeDeadline>>
 
 RunnerDrains == /\ rpc = "drain" /\ resultCh # <<>>
                 /\ resultCh' = <<>> /\ rpc' = "ret"
                 /\ ret' = (IF tErr = "timeout" THEN "timeout" ELSE "ctxerr")
                 /\ Log("RunnerDrains")
-                /\ UNCHANGED <<tErr, outcome, watches, parentDone, timerFired, timeoutCancelled, actionCancelled, apc, aresult, got, finishedBeforeDeadline>>
+                /\ UNCHANGED <<tErr, outcome, watches, quiet, storeCancelled, parentDone, timerFired, timeoutCancelled, actionCancelled, apc, aresult, got, finishedBeforeDeadline>>
 
 Terminated == rpc = "ret" /\ apc \in {"done", "notstarted"} /\ UNCHANGED vars
 
-Next == ParentCancels \/ TimerFires \/ RunnerChecks \/ ActionFinishes \/ ActionSeesCtx \/ ActionSends
+Next == ParentCancels \/ TimerFires \/ StoreCancels \/ RunnerChecks \/ ActionFinishes \/ ActionSeesCtx \/ ActionSends
         \/ RunnerGetsResult \/ RunnerReturnsResult \/ RunnerTimesOut \/ RunnerDrains \/ Terminated
 
 Spec == Init /\ [][Next]_vars
@@ -125,13 +137,16 @@ PreCancelledRunsNothing == (rpc = "ret" /\ ret = "cancelled") => apc = "notstart
 OwnResultBeforeDeadline == (rpc = "ret" /\ finishedBeforeDeadline /\ ~parentDone /\ ~timerFired) => ret = got
 TimeoutCtxErrConsistent == (tErr = "none") = ~TimeoutCtxDone
 TimeoutKindAfterDeadline == (rpc = "ret" /\ ret = "timeout") => timerFired
+\* a run whose store was cancelled while the action was still at work does not report success
+SentAfterStoreCancel == \E i, j \in 1..Len(hist) : i < j /\ hist[i] = "StoreCancels" /\ hist[j] = "ActionSends"
+StoreCancelReported == (rpc = "ret" /\ apc = "done" /\ SentAfterStoreCancel) => ret \notin {"nil", "none"}
 NoBlockedGoroutine == rpc = "ret" => apc \in {"done", "notstarted"}
 \* the context handed to the action is cancelled on every exit path of the ...AndContext runner, and on
 \* the error / timeout paths of the ...AndCancelStore runner
 ActionContextTriggered ==
     (rpc = "ret" /\ apc = "done") => (IF DeferredStoreCancel THEN ActionCtxDone ELSE (got # "nil" => ActionCtxDone))
 
-Scenario == [outcome |-> outcome, watches |-> watches, deferred |-> DeferredStoreCancel, steps |-> hist, ret |-> ret,
+Scenario == [outcome |-> outcome, watches |-> watches, quiet |-> quiet, storeCancelled |-> storeCancelled, deferred |-> DeferredStoreCancel, steps |-> hist, ret |-> ret,
              parentDone |-> parentDone, timerFired |-> timerFired, actionCtxDone |-> ActionCtxDone, ran |-> (apc = "done")]
 Emit == (rpc = "ret" /\ apc \in {"done", "notstarted"}) => PrintT(<<"BEHAVIOUR", ToJson(Scenario)>>)
 =============================================================================
